@@ -29,6 +29,8 @@ API
         assert are dynamic (calling one without clauses fails instead of
         raising existence_error).
     ref.add_clause(term, front=False)    add one more static clause
+    ref.fork(clauses=(), quirks=None)    cheap copy sharing the static predicates (+ clauses): run
+                                         thousands of small programs over one set of helper facts
     ref.solve(goal, max_solutions=64, max_steps=100000) -> (answers, status)
         answers: list of tuples, one per solution, giving the instantiation
             of the goal's variables in first-occurrence (depth-first,
@@ -39,6 +41,9 @@ API
         status: 'done'            search space exhausted
                 'cap'             max_solutions reached (more may exist)
                 'budget'          step budget exhausted (possible non-termination)
+                'sto'             a unification would have created a cyclic term: the
+                                  program is "subject to occurs check", its behaviour is
+                                  undefined in ISO and REF stops (answers so far are valid)
                 ('exc', Ball)     uncaught exception; Ball canonicalised.  For
                                   ISO errors Ball = ('error', Formal, V) and the
                                   context is a fresh variable: compare the formal
@@ -68,7 +73,8 @@ is_list ground functor/3 arg/3 ``=..``/2 copy_term/2 is/2 ``=:=`` ``=\\=``
 ``<`` ``>`` ``=<`` ``>=`` (integer arithmetic, floats carried through + - * /)
 between/3 length/2 (proper lists and enumeration) assertz/1 asserta/1
 assert/1 retract/1 retractall/1 abolish/1 clause/2 write/1 print/1 writeq/1
-nl/0 atom_length/2 (plain) bb_put/bb_get/bb_b_put (blackboard).
+nl/0 atom_length/2 (plain) bb_put/bb_get/bb_b_put (blackboard; backtrackable values
+live in the substitution) put_atts/2 get_atts/2 (one attribute term, no hooks).
 
 Choice-point model (only an *upper bound*, see DESIGN section 4.2(iii)): a
 call of a predicate with k > 1 live clauses keeps a choice point until its
@@ -84,6 +90,9 @@ disagreement an exact signature, never as the expectation):
     "body_cond_cut"      a cut in the condition of an if-then(-else) that is
                          written in a clause body cuts the clause (or the
                          enclosing \\+), as the compiler of the pinned tree does
+    "not_cut_free"       (with body_cond_cut) a `!` inside \\+ in a clause body that is
+                         followed by a nested \\+ / if-then-else disables the final
+                         cut of the outer \\+: it behaves as (G, fail ; true)
     "call_ite_cond_cut"  a cut in the condition of (C -> T ; E) passed to
                          call/N cuts to the barrier of the call (removing the
                          else branch), as builtins.pl dispatch_prep_ does
@@ -106,6 +115,10 @@ class PrologThrow(Exception):
 
 class _Budget(Exception):
     pass
+
+
+class _STO(Exception):
+    """a unification would have created a cyclic term (subject to occurs check)"""
 
 
 class _I(object):
@@ -338,6 +351,33 @@ class RefProlog(object):
         for c in clauses:
             self.add_clause(c)
 
+    def fork(self, clauses=(), quirks=None):
+        """a cheap copy sharing this interpreter's *static* predicates (they must not be
+        modified through the copy) plus `clauses`; dynamic predicates are copied.  Used to
+        run many small programs over one set of helper predicates."""
+        r = RefProlog.__new__(RefProlog)
+        r.quirks = self.quirks if quirks is None else frozenset(quirks)
+        r.call_ite_cond_transparent = "call_ite_cond_cut" in r.quirks
+        r.preds = {}
+        for k, p in self.preds.items():
+            if p.dynamic:
+                q = _Pred(True)
+                q.clauses = list(p.clauses)
+                r.preds[k] = q
+            else:
+                r.preds[k] = p
+        r.gen = self.gen
+        r.varctr = 0
+        r.output = []
+        r.bb = dict(self.bb)
+        r.stats = {}
+        r.last_status = None
+        r.det_builtins = dict(self.det_builtins)
+        r.nondet_builtins = dict(self.nondet_builtins)
+        for c in clauses:
+            r.add_clause(c)
+        return r
+
     # -- database ---------------------------------------------------------
     def declare_dynamic(self, name, arity):
         key = (name, arity)
@@ -369,7 +409,7 @@ class RefProlog(object):
         if p is None:
             p = self.preds[key] = _Pred(dynamic)
         if "body_cond_cut" in self.quirks:
-            body = deviant_body(body)
+            body = deviant_body(body, "not_cut_free" in self.quirks)
         vs = term_vars(("c", head, body))
         m = {v.n: V(i) for i, v in enumerate(vs)}
         self.gen += 1
@@ -420,6 +460,8 @@ class RefProlog(object):
             self.last_status = ("exc", canon(e.ball))
         except _Budget:
             self.last_status = "budget"
+        except _STO:
+            self.last_status = "sto"
         finally:
             self.stats = run.stats()
 
@@ -428,27 +470,68 @@ class RefProlog(object):
         return V(self.varctr)
 
 
-def deviant_body(b):
-    """Deviation model "body_cond_cut" (DESIGN section 8, D30): rewrite a clause
-    body the way the compiler of the tree under test treats it -- the condition
-    of an if-then(-else) written in a clause body is compiled inline with the
-    enclosing cut barrier (transparent to cut), and \\+ G compiles G inline with
-    a barrier local to the \\+.  Goals passed to call/N, findall/3, catch/3 ...
-    are not touched (they are meta-called)."""
+def deviant_body(b, not_cut_free=False):
+    """Deviation models of the compiler of the tree under test (DESIGN section 8).
+
+    "body_cond_cut" (D30): the condition of an if-then(-else) written in a
+    clause body is compiled inline with the enclosing cut barrier (transparent
+    to cut), and \\+ G compiles G inline with a barrier local to the \\+.  Goals
+    passed to call/N, findall/3, catch/3 ... are not touched (meta-called).
+
+    not_cut_free ("not_cut_free"): codegen frees the cut variable of a \\+ after
+    a `!` inside it; when a later nested \\+ / if-then-else reuses the slot, the
+    final cut of the outer \\+ no longer cuts: \\+ G behaves as (G, fail ; true)."""
     if type(b) is tuple and len(b) == 3:
         f = b[0]
         if f == ",":
-            return (",", deviant_body(b[1]), deviant_body(b[2]))
+            return (",", deviant_body(b[1], not_cut_free), deviant_body(b[2], not_cut_free))
         if f == ";":
             l = b[1]
             if type(l) is tuple and len(l) == 3 and l[0] == "->":
-                return ("$ite_t", deviant_body(l[1]), deviant_body(l[2]), deviant_body(b[2]))
-            return (";", deviant_body(b[1]), deviant_body(b[2]))
+                return ("$ite_t", deviant_body(l[1], not_cut_free), deviant_body(l[2], not_cut_free),
+                        deviant_body(b[2], not_cut_free))
+            return (";", deviant_body(b[1], not_cut_free), deviant_body(b[2], not_cut_free))
         if f == "->":
-            return ("$it_t", deviant_body(b[1]), deviant_body(b[2]))
+            return ("$it_t", deviant_body(b[1], not_cut_free), deviant_body(b[2], not_cut_free))
     if type(b) is tuple and len(b) == 2 and b[0] == "\\+":
-        return ("$not_t", deviant_body(b[1]))
+        if not_cut_free and _cut_then_branch(b[1]):
+            return ("$not_nocut", deviant_body(b[1], not_cut_free))
+        return ("$not_t", deviant_body(b[1], not_cut_free))
     return b
+
+
+def _cut_then_branch(g):
+    """inside the inline scope of a \\+: is a cut owned by it followed, in code
+    order, by a nested \\+ or if-then-else (which allocates a new cut-point slot)?"""
+    ev = []
+
+    def walk(t, in_disj):
+        if t == "!":
+            ev.append("cut")
+            return
+        if type(t) is not tuple:
+            return
+        if len(t) == 3 and t[0] == ",":
+            walk(t[1], in_disj)
+            walk(t[2], in_disj)
+        elif len(t) == 3 and t[0] == "->":
+            if in_disj:
+                ev.append("branch")   # an if-then inside a disjunction branch starts in a new chunk
+            walk(t[1], in_disj)
+            walk(t[2], in_disj)
+        elif len(t) == 3 and t[0] == ";":
+            l = t[1]
+            if type(l) is tuple and len(l) == 3 and l[0] == "->":
+                ev.append("branch")
+                walk(l[1], True)
+                walk(l[2], True)
+            else:
+                walk(l, True)
+            walk(t[2], True)
+        elif len(t) == 2 and t[0] == "\\+":
+            ev.append("branch")
+    walk(g, False)
+    return "cut" in ev and "branch" in ev[ev.index("cut"):]
 
 
 def _pi_list(t):
@@ -513,10 +596,24 @@ class _Run(object):
         self.shared = True
 
     def bind(self, n, t):
+        if type(t) is tuple and self.occurs(n, t):
+            raise _STO()
         if self.shared:
             self.s = dict(self.s)
             self.shared = False
         self.s[n] = t
+
+    def occurs(self, n, t):
+        s = self.s
+        stack = [t]
+        while stack:
+            t = _deref(stack.pop(), s)
+            if type(t) is V:
+                if t.n == n:
+                    return True
+            elif type(t) is tuple:
+                stack.extend(t[1:])
+        return False
 
     def deref(self, t):
         return _deref(t, self.s)
@@ -870,6 +967,11 @@ class _Run(object):
             if name == "$it_t":       # if-then whose condition is transparent to cut
                 h = len(self.cps)
                 self.goals = (goal[1], cb, (_I("cut", h), cb, (goal[2], cb, nxt)))
+                return True
+            if name == "$not_nocut":  # \\+ whose final cut is lost: (G, fail ; true)
+                h = len(self.cps)
+                self.push_cp((_ALT, self.snap(), nxt))
+                self.goals = (goal[1], h + 1, ("fail", cb, nxt))
                 return True
             if name == "$not_t":      # \+ with an inlined goal: cut inside is local to the \+
                 h = len(self.cps)
@@ -1346,9 +1448,57 @@ def _bi_bb_put(e, a):
 
 def _bi_bb_get(e, a):
     k = e.deref(a[0])
-    if k not in e.ref.bb:
+    v = e.s.get(("$bb", k), _MISSING)     # backtrackable value (bb_b_put) shadows the global one
+    if v is _MISSING:
+        if k not in e.ref.bb:
+            return False
+        v = e.ref.bb[k]
+    return e.unify(a[1], e.copy_fresh(v))
+
+
+def _bi_bb_b_put(e, a):
+    # backtrackable: the value lives in the persistent substitution, so it reverts exactly when
+    # bindings do.  (Do not mix bb_put and bb_b_put on one key: the real system's result then
+    # depends on trail order; REF lets the backtrackable value shadow the global one.)
+    k = e.deref(a[0])
+    e.bind(("$bb", k), e.copy_fresh(a[1]))
+    return True
+
+
+def _att_parts(e, spec):
+    spec = e.deref(spec)
+    sign = "+"
+    if type(spec) is tuple and len(spec) == 2 and spec[0] in ("+", "-"):
+        sign = spec[0]
+        spec = e.deref(spec[1])
+    if type(spec) is V:
+        raise e.inst_err()
+    key = (spec, 0) if type(spec) is str else (spec[0], len(spec) - 1)
+    return sign, spec, key
+
+
+def _bi_put_atts(e, a):
+    """put_atts(Var, +Attr | Attr | -Attr) for one attribute term; attributes live in the
+    substitution under ('$att', var, name/arity), hence revert with backtracking"""
+    v = e.deref(a[0])
+    if type(v) is not V:
+        raise e.err(("uninstantiation_error", e.resolve(v)))
+    sign, spec, key = _att_parts(e, a[1])
+    e.bind(("$att", v.n, key), None if sign == "-" else e.resolve(spec))
+    return True
+
+
+def _bi_get_atts(e, a):
+    v = e.deref(a[0])
+    if type(v) is not V:
+        raise e.err(("uninstantiation_error", e.resolve(v)))
+    sign, spec, key = _att_parts(e, a[1])
+    cur = e.s.get(("$att", v.n, key), None)
+    if sign == "-":
+        return cur is None
+    if cur is None:
         return False
-    return e.unify(a[1], e.copy_fresh(e.ref.bb[k]))
+    return e.unify(spec, cur)
 
 
 import operator as _op
@@ -1397,6 +1547,9 @@ _DET = {
     ("atom_length", 2): _bi_atom_length,
     ("bb_put", 2): _bi_bb_put,
     ("bb_get", 2): _bi_bb_get,
+    ("bb_b_put", 2): _bi_bb_b_put,
+    ("put_atts", 2): _bi_put_atts,
+    ("get_atts", 2): _bi_get_atts,
 }
 
 
@@ -1515,34 +1668,11 @@ def _nd_length(e, a):
     return gen()
 
 
-def _nd_bb_b_put(e, a):
-    # backtrackable assignment: value restored when backtracked over
-    k = e.deref(a[0])
-    old = e.ref.bb.get(k, _MISSING)
-    new = e.copy_fresh(a[1])
-
-    def gen():
-        def put():
-            e.ref.bb[k] = new
-            return True
-        yield _thunk(put)
-
-        def undo():
-            if old is _MISSING:
-                e.ref.bb.pop(k, None)
-            else:
-                e.ref.bb[k] = old
-            return False
-        yield _thunk(undo, True)
-    return gen()
-
-
 _NONDET = {
     ("between", 3): _nd_between,
     ("clause", 2): _nd_clause,
     ("retract", 1): _nd_retract,
     ("length", 2): _nd_length,
-    ("bb_b_put", 2): _nd_bb_b_put,
 }
 
 
@@ -1871,6 +2001,8 @@ def _selftest():
     check("", "atom(a), atomic(1), \\+ atom(1), var(_), nonvar(a), compound(f(x)), callable(a), is_list([a])", ["[_]"])
     # non-termination is reported, not suffered
     check("loop :- loop.", "loop", [], "budget", steps=2000)
+    check("", "(Y = 1 ; X = f(X))", ["[1,_]"], "sto")
+    check("", "X = f(Y), Y = g(X)", [], "sto")
     check("nat(0). nat(s(X)) :- nat(X).", "nat(X)", ["[0]", "[s(0)]", "[s(s(0))]"], "cap", cap=3)
     # database: logical update view
     r = check("", "assertz(d(1)), assertz(d(2)), d(X), assertz(d(3))", ["[1]", "[2]"])
@@ -1905,6 +2037,10 @@ def _selftest():
     # blackboard
     check("", "bb_put(k, 1), (bb_b_put(k, 2), fail ; bb_get(k, V))", ["[1]"])
     check("", "bb_put(k, 1), (bb_put(k, 2), fail ; bb_get(k, V))", ["[2]"])
+    check("", "bb_put(k, 1), \\+ \\+ bb_b_put(k, 2), bb_get(k, V)", ["[1]"])
+    check("", "bb_put(k, 1), (bb_b_put(k, 2) -> bb_get(k, V) ; true)", ["[2]"])
+    check("", "put_atts(A, a(1)), (put_atts(A, a(2)), fail ; get_atts(A, a(V)))", ["[_,1]"])
+    check("", "\\+ (put_atts(A, a(1)), fail), get_atts(A, -a(_))", ["[_,_]"])
     # deep recursion is iterative
     r = RefProlog(parse_program("len([], 0). len([_|T], N) :- len(T, M), N is M + 1. "
                                 "mk(0, []) :- !. mk(N, [N|T]) :- M is N - 1, mk(M, T)."))
